@@ -47,6 +47,9 @@ pub fn ctr_counts() -> [u8; 6] { unsafe { CTR } }
 pub struct W(pub i32);
 impl From<i32> for W { fn from(v: i32) -> Self { W(v.wrapping_mul(2)) } }
 
+#[derive(Clone, Copy, PartialEq, Eq, PartialOrd, Ord, Debug)]
+pub enum Nest { X, Y }
+
 /// partially ordered byte: 255 is incomparable with everything (NaN-like)
 #[derive(Clone, Copy, Debug, PartialEq)]
 pub struct Inc(pub u8);
@@ -134,6 +137,11 @@ impl Val for u32 { fn draw<S: Src>(s: &mut S) -> Self { s.u32() } }
 impl Val for u64 { fn draw<S: Src>(s: &mut S) -> Self { s.u64() } }
 impl Val for f32 { fn draw<S: Src>(s: &mut S) -> Self { s.f32() } }
 impl Val for &'static u8 { fn draw<S: Src>(s: &mut S) -> Self { Box::leak(Box::new(s.u8())) } }
+impl Val for char { fn draw<S: Src>(s: &mut S) -> Self { char::from_u32(s.u16() as u32).unwrap_or('a') } }
+impl Val for core::num::NonZeroU8 { fn draw<S: Src>(s: &mut S) -> Self { core::num::NonZeroU8::new(s.u8()).unwrap_or(core::num::NonZeroU8::MIN) } }
+impl Val for Option<u8> { fn draw<S: Src>(s: &mut S) -> Self { if s.boolean() { Some(s.u8()) } else { None } } }
+impl Val for crate::m::Nest { fn draw<S: Src>(s: &mut S) -> Self { if s.boolean() { crate::m::Nest::X } else { crate::m::Nest::Y } } }
+impl Val for [u8; 0] { fn draw<S: Src>(_s: &mut S) -> Self { [] } }
 impl Val for () { fn draw<S: Src>(_s: &mut S) -> Self { } }
 impl Val for crate::m::K { fn draw<S: Src>(s: &mut S) -> Self { crate::m::K(s.u64()) } }
 impl<const ID: usize> Val for crate::m::Ctr<ID> { fn draw<S: Src>(s: &mut S) -> Self { crate::m::Ctr(s.u8()) } }
@@ -216,6 +224,12 @@ impl core::hash::Hasher for Rec {
     fn write_i8(&mut self, v: i8) { self.push(0xE1); self.push(v as u8); }
 }
 
+/// helpers for the native Debug oracle: raw-string keys and method-formatted values
+pub struct Raw(pub &'static str);
+impl core::fmt::Debug for Raw { fn fmt(&self, f: &mut core::fmt::Formatter<'_>) -> core::fmt::Result { f.write_str(self.0) } }
+pub struct ViaFn<'a, T>(pub &'a T, pub fn(&T, &mut core::fmt::Formatter<'_>) -> core::fmt::Result);
+impl<'a, T> core::fmt::Debug for ViaFn<'a, T> { fn fmt(&self, f: &mut core::fmt::Formatter<'_>) -> core::fmt::Result { (self.1)(self.0, f) } }
+
 pub fn chk<T: core::fmt::Debug>(out: &mut Vec<(String, String, String)>, label: &str, observed: T, expected: T) {
     out.push((label.to_string(), format!("{:?}", observed), format!("{:?}", expected)));
 }
@@ -256,6 +270,58 @@ pub assume_specification<H> [<usize as core::hash::Hash>::hash] (v: &usize, st: 
     ensures h_tr(final(st)) == h_push(h_tr(old(st)), hv_usize(*v));
 pub assume_specification<H> [<isize as core::hash::Hash>::hash] (v: &isize, st: &mut H) where H: core::hash::Hasher,
     ensures h_tr(final(st)) == h_push(h_tr(old(st)), hv_isize(*v));
+'''
+
+VERUS_FMT = r'''
+// ---- assumed contracts: core::fmt builders (abstract call trace; DESIGN section 3) --------
+#[verifier::external_type_specification]
+#[verifier::external_body]
+pub struct ExDebugTuple<'a, 'b: 'a>(core::fmt::DebugTuple<'a, 'b>);
+#[verifier::external_type_specification]
+#[verifier::external_body]
+pub struct ExDebugStruct<'a, 'b: 'a>(core::fmt::DebugStruct<'a, 'b>);
+
+pub struct Tr(pub int);
+pub uninterp spec fn f_state(f: &core::fmt::Formatter<'_>) -> int;
+pub uninterp spec fn wr(st: int, s: Seq<char>) -> core::fmt::Result;
+pub uninterp spec fn dyn_id(v: &dyn core::fmt::Debug) -> int;
+pub uninterp spec fn tt_start(st: int, name: Seq<char>) -> Tr;
+pub uninterp spec fn tt_field(t: Tr, v: int) -> Tr;
+pub uninterp spec fn dt_trace(d: &core::fmt::DebugTuple<'_, '_>) -> Tr;
+pub uninterp spec fn tfin(t: Tr) -> core::fmt::Result;
+pub uninterp spec fn ts_start(st: int, name: Seq<char>) -> Tr;
+pub uninterp spec fn ts_field(t: Tr, key: Seq<char>, v: int) -> Tr;
+pub uninterp spec fn ds_trace(d: &core::fmt::DebugStruct<'_, '_>) -> Tr;
+pub uninterp spec fn sfin(t: Tr) -> core::fmt::Result;
+
+pub assume_specification<'a> [core::fmt::Formatter::<'a>::write_str] (f: &mut core::fmt::Formatter<'a>, s: &str) -> (r: core::fmt::Result)
+    ensures r == wr(f_state(old(f)), s@);
+pub assume_specification<'a, 'b> [core::fmt::Formatter::<'a>::debug_tuple] (f: &'b mut core::fmt::Formatter<'a>, name: &str) -> (r: core::fmt::DebugTuple<'b, 'a>)
+    ensures dt_trace(&r) == tt_start(f_state(old(f)), name@);
+pub assume_specification<'a, 'b, 'c> [core::fmt::DebugTuple::<'a, 'b>::field] (d: &'c mut core::fmt::DebugTuple<'a, 'b>, v: &dyn core::fmt::Debug) -> (r: &'c mut core::fmt::DebugTuple<'a, 'b>)
+    where 'b: 'a,
+    ensures dt_trace(final(d)) == tt_field(dt_trace(old(d)), dyn_id(v));
+pub assume_specification<'a, 'b> [core::fmt::DebugTuple::<'a, 'b>::finish] (d: &mut core::fmt::DebugTuple<'a, 'b>) -> (r: core::fmt::Result)
+    where 'b: 'a,
+    ensures r == tfin(dt_trace(old(d)));
+pub assume_specification<'a, 'b> [core::fmt::Formatter::<'a>::debug_struct] (f: &'b mut core::fmt::Formatter<'a>, name: &str) -> (r: core::fmt::DebugStruct<'b, 'a>)
+    ensures ds_trace(&r) == ts_start(f_state(old(f)), name@);
+pub assume_specification<'a, 'b, 'c> [core::fmt::DebugStruct::<'a, 'b>::field] (d: &'c mut core::fmt::DebugStruct<'a, 'b>, name: &str, v: &dyn core::fmt::Debug) -> (r: &'c mut core::fmt::DebugStruct<'a, 'b>)
+    where 'b: 'a,
+    ensures ds_trace(final(d)) == ts_field(ds_trace(old(d)), name@, dyn_id(v));
+pub assume_specification<'a, 'b> [core::fmt::DebugStruct::<'a, 'b>::finish] (d: &mut core::fmt::DebugStruct<'a, 'b>) -> (r: core::fmt::Result)
+    where 'b: 'a,
+    ensures r == sfin(ds_trace(old(d)));
+// facts about core::fmt that keep harmless refactors from alarming: a builder finished
+// without any field writes exactly its name
+pub mod fmt_ax {
+use super::*;
+pub broadcast axiom fn axiom_empty_struct_is_write_str(st: int, n: Seq<char>)
+    ensures #[trigger] sfin(ts_start(st, n)) == wr(st, n);
+pub broadcast axiom fn axiom_empty_tuple_is_write_str(st: int, n: Seq<char>)
+    requires n.len() > 0,
+    ensures #[trigger] tfin(tt_start(st, n)) == wr(st, n);
+}
 '''
 
 VERUS_TAIL = "\n} // verus!\nfn main() {}\n"
